@@ -81,12 +81,24 @@ type Net struct {
 	Stats Stats
 	cond  chan struct{}
 	ids   int
+	dead  bool
 }
 
-func New() *Net { return &Net{cond: make(chan struct{})} }
+func New() *Net {
+	n := &Net{cond: make(chan struct{})}
+	// at the end of the run every waiter is released (and ended by the scheduler)
+	simrt.AtTeardown(func() {
+		n.dead = true
+		close(n.cond)
+	})
+	return n
+}
 
 // notify wakes every waiter; they re-examine their condition.
 func (n *Net) notify() {
+	if n.dead {
+		return
+	}
 	close(n.cond)
 	n.cond = make(chan struct{})
 }
